@@ -507,6 +507,26 @@ def w_F15a():
         shutil.rmtree(d, ignore_errors=True)
 
 
+def w_F15b():
+    import tifffile
+    from funtracks.import_export import export_to_csv
+
+    seg = np.zeros((2, 3, 3), dtype=np.int64)
+    seg[0, 0, 0] = 1
+    seg[1, 0, 0] = 2
+    t = _sol({1: 0, 2: 1}, [(1, 2)], seg=seg)
+    d = Path(tempfile.mkdtemp(prefix="funverif."))
+    try:
+        try:
+            export_to_csv(t, d / "out.csv", node_ids=set(), export_seg=True, seg_path=d / "out.tif")
+        except Exception as e:  # noqa: BLE001
+            return False, "export_to_csv(export_seg=True) with an empty node selection raises %s: %s" % (type(e).__name__, str(e)[:60])
+        out = np.asarray(tifffile.imread(d / "out.tif"))
+        return out.shape == seg.shape and not out.any(), "label image for the empty selection: shape %s, labels %s" % (out.shape, np.unique(out).tolist())
+    finally:
+        shutil.rmtree(d, ignore_errors=True)
+
+
 # ----------------------------------------------------------------------------- C17
 def partition_ok(cols, mapping):
     used = []
@@ -610,6 +630,7 @@ WITNESSES = {
     "F-14a-undo": (["C01"], w_F14a_undo),
     "F-14b": (["C14", "C01"], w_F14b),
     "F-15a": (["C15"], w_F15a),
+    "F-15b": (["C15"], w_F15b),
     "F-16a": (["C16"], w_F16a),
     "F-17a-fuzzy": (["C17"], w_F17a_fuzzy),
     "F-17a-custom-pos": (["C17"], w_F17a_custom_pos),
